@@ -8,8 +8,10 @@ chunk sizes / map functors and marshals what it observes.
 from __future__ import annotations
 
 import itertools
+import json
 import os
 import random
+import sys
 import warnings
 from fractions import Fraction
 
@@ -17,7 +19,7 @@ import numpy as np
 import pandas as pd
 
 from harness import gen
-from harness.common import drv, errclass
+from harness.common import ImplRaised, drv, errclass, impl
 
 PID = "C11"
 THEOREMS = ["spans_cover_once", "spans_cover_once'", "partition_cover_once", "splitDefault_cover_once",
@@ -26,8 +28,11 @@ THEOREMS = ["spans_cover_once", "spans_cover_once'", "partition_cover_once", "sp
             "spans_coversOnce", "marginal_split", "marginal_split_two", "margFn_append", "chunkFn_append",
             "balance_marginal_split", "pipeline_reduce_eq_whole", "balanceReduce_eq_whole",
             "balance_data_only", "code_chunkings_cover",
-            "local_binarize", "local_zeroDiags", "local_zeroTrans", "local_zeroCis", "local_timesOuter"]
-LEVELS = {"partition_unit": "unit", "spans_unit": "unit", "pipeline": "top", "pipe_reuse": "top", "balance_schedules": "top", "cli": "top"}
+            "local_binarize", "local_zeroDiags", "local_zeroTrans", "local_zeroCis", "local_timesOuter",
+            "observe_append_run", "run_after_write", "run_data_only", "run_repeat", "stored_append_write",
+            "stored_append_write_ne", "stored_append_run"]
+LEVELS = {"partition_unit": "unit", "spans_unit": "unit", "pipeline": "top", "pipe_reuse": "top", "balance_schedules": "top", "cli": "top",
+          "hist_balance": "top", "hist_pipeline": "top"}
 DESCRIBE = {
     "partition_unit": "cooler.util.partition(lo, hi, step) vs Lean `partition` and the contract `CoversOnce` (theorem partition_coversOnce)",
     "spans_unit": "the spans every pass of the real balance_cooler(chunksize=c) hands to its map (recorded), and split(clr, chunksize=c).keys: "
@@ -41,6 +46,14 @@ DESCRIBE = {
     "balance_schedules": "cooler.balance_cooler(chunksize=c, map=m) vs the chunksize=None/builtin-map run of the same cooler and options: NaN masks "
                          "and converged identical, weights/scale/var to 1e-9 relative, repeated runs identical; every pass's spans meet `CoversOnce`",
     "cli": "`cooler balance -p N --force` (Pool.imap_unordered) on a scratch copy vs the API reference run",
+    "hist_balance": "a HISTORY in one process: coolers written at one or two URIs (files, or groups of one file), balanced, then REPLACED at the "
+                    "same URI (other values / positions / chromosome layout with the same number of bins / other number of bins / other dtype) "
+                    "and balanced again, through a fresh Cooler object or the same one (same chromosome table and nnz only): every "
+                    "balance_cooler(chunksize, map, mode) result vs the exact-rational Lean model `IC.balance` on the content Lean `observe` "
+                    "says is stored at that URI at that moment (theorem observe_append_run): NaN pattern, converged, scale, var, weights 1e-9",
+    "hist_pipeline": "the same histories for cooler.parallel.split(...) pipelines built on the cooler at a URI before and after it is replaced: "
+                     "marginal reductions (with _zero_trans/_zero_cis/_zero_diags/_binarize/weights) bit for bit vs Lean `wholeMarginal`, raw chunks "
+                     "(which bins share a chromosome, pixel rows) vs Lean `chunkget`, on the content stored at that moment; keys cover once",
 }
 RULE = ("partition: every lo<=hi<=12 x step 1..hi-lo+2; spans: every nnz<=12 x chunksize 1..nnz+2 and None, genome-wide and cis-only; "
         "pipeline: small coolers (incl. empty, 1 pixel, empty rows/chromosomes) x filter stacks x EVERY chunksize 1..nnz+1 and None x "
@@ -49,17 +62,25 @@ RULE = ("partition: every lo<=hi<=12 x step 1..hi-lo+2; spans: every nnz<=12 x c
         "values) or float64 holding count*4^-k below 1, nnz marginal (_binarize) and plain marginal; pipe_reuse: every chunksize x keys given as "
         "chunksize=k / list / tuple / generator / iterator x maps, five runs off one split(); balance (also against the float64 copy of the matrix): coolers n<=8/nnz<=20 (quick), "
         "n<=10/nnz<=40 (thorough) x option vectors (mode, ignore_diags 0..2, min_nnz, min_count, mad_max, blacklist, tol, max_iters) x every "
-        "chunksize with the builtin map and a spread of chunk sizes with every other functor; non-trivial = at least 2 chunks; distinct by canonical JSON")
+        "chunksize with the builtin map and a spread of chunk sizes with every other functor; non-trivial = at least 2 chunks; distinct by canonical JSON; "
+        "histories: 1-2 URIs (two files, one file, groups of one file) x 2-4 contents per URI derived from the previous one (new values, new positions, "
+        "other nnz, new chromosome layout with the same number of bins, more / fewer bins, unrelated; int32 or float64 column) x replacement by unlink+create, "
+        "truncating create or create(mode='a') of the group x runs before and after every replacement with mode genome-wide/cis/trans, chunk sizes "
+        "1..nnz+1/None/huge, sequential, shuffled, per-run pool and one pool shared by the whole history, fresh or re-used Cooler object; "
+        "non-trivial (histories) = some URI is run, replaced and run again")
 EXHAUSTIVE = {"quick": True, "thorough": True}
 TRUSTED = ["numpy arange/bincount/slicing, h5py slicing with clamping, functools.reduce, operator.add on arrays are primitives of the model",
            "multiprocess.Pool.map/imap preserve input order, imap_unordered returns every result exactly once (exercised, not proved)",
            "float64 addition/multiplication are exact on the integer counts and dyadic weights the pipeline check feeds (all partial sums < 2^53 ulps)",
            "scaling a matrix by a power of two commutes with every float operation of balancing (no under/overflow at 4^-3): the float64 copy "
            "with min_count and tol scaled alike must reproduce the integer file's masks and rescaled weights",
-           "full balance_cooler runs are compared with each other (reference: chunksize=None, builtin map), the Lean contract checks the spans of every pass"]
+           "full balance_cooler runs are compared with each other (reference: chunksize=None, builtin map), the Lean contract checks the spans of every pass",
+           "histories: the file system is what the harness wrote last at a URI (Lean `stored`); runs in histories are compared with the rational "
+           "model `IC.balance` of C10 (discrete decisions closer than 1e-8 to a tie are not compared)"]
 ASSUMPTIONS = ["chunksize >= 1 or None", "bin ids of stored pixels are below nbins (valid cooler, C02)", "counts non-negative in full-balance cases",
                "floating-point non-associativity is bounded (1e-9 relative), not modelled"]
 CHUNK = 2
+sys.set_int_max_str_digits(0)   # exact rationals of the balance model have thousands of digits
 
 _B = None  # cooler._balance, set in worker_init
 
@@ -753,8 +774,349 @@ def _cli(case):
     return None
 
 
+# ----------------------------------------------------------------------------------------------
+# (e) histories: one process; coolers written, run, REPLACED at the same URI and run again
+# ----------------------------------------------------------------------------------------------
+# A history case:
+#   uris  : [[file number, group or None], ...]     (None: the cooler is the root of the file)
+#   data  : [{"chroms": [...], "pixels": [[i, j, v], ...], "fshift": k}, ...]
+#   steps : {"write": u, "data": k, "how": "unlink" | "truncate" | "group"}   create_cooler at URI u (replacing what is there)
+#           {"run": u, "clr": "fresh" | "same", ...}                           a run on the cooler stored at URI u
+#   pool  : worker count of ONE process pool living for the whole history (maps "shared.*"), 0 = none
+# Which content a run reads is decided by Lean (`observe`, op C11.history); the expected value is the Lean model on it.
+
+def _q(x):
+    a, b = float(x).as_integer_ratio()
+    return [a, b]
+
+
+def _fl(r):
+    if r is None:
+        return None
+    try:
+        return r[0] / r[1]
+    except OverflowError:
+        return float("inf") if r[0] > 0 else float("-inf")
+
+
+def _frames(d):
+    chroms = d["chroms"]
+    bins = []
+    for c, nb in enumerate(chroms):
+        bins += gen.chrom_bins(c, [10] * nb)
+    df = gen.bins_df(bins, nchroms=len(chroms))
+    px = d["pixels"]
+    pdf = pd.DataFrame({"bin1_id": np.array([p[0] for p in px], dtype=np.int64),
+                        "bin2_id": np.array([p[1] for p in px], dtype=np.int64),
+                        "count": np.array([p[2] for p in px], dtype=np.int32)})
+    k = int(d.get("fshift", 0))
+    kw = {}
+    if k:
+        pdf["count"] = np.array([p[2] for p in px], dtype=np.float64) / float(4 ** k)
+        kw["dtypes"] = {"count": np.float64}
+    return df, pdf, kw
+
+
+class _Files:
+    """the scratch files of one history: fixed paths for the whole case"""
+
+    def __init__(self, case):
+        tag = f"c11h-{os.getpid()}-{next(_COUNTER)}"
+        self.uris = case["uris"]
+        self.paths = {f: os.path.join(gen.tmpdir(), f"{tag}-f{f}.cool") for f, _g in self.uris}
+
+    def uri(self, u):
+        f, g = self.uris[u]
+        return self.paths[f] if g is None else self.paths[f] + "::" + g
+
+    def write(self, u, d, how):
+        f, g = self.uris[u]
+        df, pdf, kw = _frames(d)
+        if g is None:
+            if how == "unlink":
+                _rm(self.paths[f])
+                cooler.create_cooler(self.paths[f], df, pdf, ordered=True, **kw)
+            else:   # create_cooler truncates an existing file (mode="w")
+                cooler.create_cooler(self.paths[f], df, pdf, ordered=True, mode="w", **kw)
+        else:       # the group is deleted and written again, other groups of the file stay
+            cooler.create_cooler(self.paths[f] + "::" + g, df, pdf, ordered=True, mode="a", **kw)
+
+    def cleanup(self):
+        for p in self.paths.values():
+            _rm(p)
+
+
+class _Hist:
+    """walks the steps of a history: writes, and for every run step hands (step, content read per Lean, Cooler object, map)"""
+
+    def __init__(self, case):
+        self.case = case
+        self.files = _Files(case)
+        self.kept = {}      # uri -> (Cooler, (chroms, nnz) of the content it was opened on)
+        self.pool = None
+        lean_steps = [({"write": s["write"], "data": s["data"]} if "write" in s else {"run": s["run"]}) for s in case["steps"]]
+        self.reads = drv().ask("C11.history", steps=lean_steps)["reads"]
+        if len(self.reads) != sum(1 for s in case["steps"] if "run" in s):
+            raise AssertionError("theorem observe_length contradicted by the model")
+
+    def __enter__(self):
+        if self.case.get("pool"):
+            self.pool = multiprocess.get_context("fork").Pool(int(self.case["pool"]))
+        return self
+
+    def __exit__(self, et, ev, tb):
+        if self.pool is not None:
+            if et is None:
+                self.pool.close()
+            else:
+                self.pool.terminate()
+            self.pool.join()
+        self.files.cleanup()
+        return False
+
+    def mapctx(self, st):
+        kind = st["map"]
+        if kind.startswith("shared."):
+            import contextlib
+            return contextlib.nullcontext(getattr(self.pool, kind[7:]))
+        return _MapCtx(kind, st.get("nproc", 2), st.get("seed", 0))
+
+    def clr_for(self, st, d):
+        """a fresh Cooler object, or the one kept from an earlier run on this URI when everything it read at construction
+        (chromosome table, number of bins, nnz) still describes the stored content"""
+        u = st["run"]
+        meta = (tuple(d["chroms"]), len(d["pixels"]))
+        if st.get("clr") == "same" and u in self.kept and self.kept[u][1] == meta:
+            return self.kept[u][0], True
+        clr = impl(cooler.Cooler, self.files.uri(u))
+        self.kept[u] = (clr, meta)
+        return clr, False
+
+    def walk(self):
+        ri = 0
+        for si, st in enumerate(self.case["steps"]):
+            if "write" in st:
+                impl(self.files.write, st["write"], self.case["data"][st["data"]], st.get("how", "unlink"))
+                continue
+            k = self.reads[ri]
+            ri += 1
+            if k is None:
+                raise AssertionError("generator produced a run on a URI that holds nothing")
+            yield si, st, k, self.case["data"][k]
+
+
+def _offsets_of(chroms):
+    offs = [0]
+    for nb in chroms:
+        offs.append(offs[-1] + nb)
+    return offs
+
+
+def _model_balance(d, opts):
+    mode = "cis" if opts.get("cis_only") else "trans" if opts.get("trans_only") else "genome"
+    return drv().ask("C10.balance", n=sum(d["chroms"]), offsets=_offsets_of(d["chroms"]), pixels=d["pixels"], mode=mode,
+                     ignore_diags=int(opts["ignore_diags"]), min_nnz=int(opts["min_nnz"]), min_count=int(opts["min_count"]),
+                     mad_max=int(opts["mad_max"]), blacklist=list(opts.get("blacklist") or []), x0=None, tol=_q(opts["tol"]),
+                     max_iters=int(opts["max_iters"]))
+
+
+TIE = 1e-8
+
+
+def _close1(a, b, rel=1e-9):
+    if a is None or b is None:
+        return a is None and b is None
+    return abs(a - b) <= rel * max(abs(a), abs(b))
+
+
+def _vs_model(m, got, d, opts):
+    """None, or the list of components in which a balance_cooler result differs from the Lean model run"""
+    if got[0] != "ok":
+        return ["raised " + str(got[1])]
+    _, bias, conv, scale, var = got
+    n = sum(d["chroms"])
+    mb = [_fl(x) for x in m["bias"]]
+    msc = [_fl(x) for x in m["scales"]]
+    mva = [_fl(x) for x in m["vars"]]
+    doms = list(zip(_offsets_of(d["chroms"])[:-1], _offsets_of(d["chroms"])[1:])) if opts.get("cis_only") else [(0, n)]
+    if len(bias) != n:
+        return [f"{len(bias)} weights for {n} bins"]
+    if not (len(conv) == len(scale) == len(var) == len(doms)):
+        return ["stats arrays do not have one entry per domain"]
+    problems = []
+    if [bool(np.isnan(x)) for x in bias] != [x is None for x in mb]:
+        problems.append("nan-pattern")
+    if [bool(x) for x in conv] != m["converged"]:
+        problems.append("converged")
+    for k in range(len(doms)):
+        s = None if np.isnan(scale[k]) else float(scale[k])
+        if not _close1(s, msc[k]):
+            problems.append(f"scale[{k}]")
+        tolv = 1e-9 * abs(mva[k]) + 1e-10 * abs(msc[k] or 0.0) * np.sqrt(abs(mva[k])) + 1e-22 * (msc[k] or 0.0) ** 2
+        if not (abs(float(var[k]) - mva[k]) <= tolv):
+            problems.append(f"var[{k}]")
+    if not problems:
+        for k, (lo, hi) in enumerate(doms):
+            div = np.sqrt(msc[k]) if (opts.get("rescale_marginals", True) and msc[k] is not None) else 1.0
+            for i in range(lo, hi):
+                if mb[i] is not None and not _close1(float(bias[i]), mb[i] / div):
+                    problems.append(f"weight[{i}]")
+    return problems or None
+
+
+def _hist_balance(case):
+    models = {}
+    stats = {"runs": 0, "compared": 0, "ties_skipped": 0, "same_object_runs": 0, "runs_after_replacement": 0}
+    with _Hist(case) as h:
+        ran, replaced = set(), set()
+        for si, st, k, d in _walk_marking(h, ran, replaced):
+            opts = st["opts"]
+            key = (k, json_key(opts))
+            if key not in models:
+                models[key] = _model_balance(d, opts)
+            m = models[key]
+            if "err" in m:
+                raise AssertionError("generator produced a run outside the balance model's domain")
+            fk = int(d.get("fshift", 0))
+            opts2 = opts
+            if fk:
+                sc = float(4 ** fk)
+                opts2 = dict(opts, min_count=opts["min_count"] / sc, tol=opts["tol"] / (sc * sc))
+            clr, same = h.clr_for(st, d)
+            with h.mapctx(st) as mp_:
+                got = _run_balance(clr, opts2, st["chunksize"], mp_)
+            if fk:
+                got = _unscale(got, fk, opts.get("rescale_marginals", True))
+            stats["runs"] += 1
+            stats["same_object_runs"] += int(same)
+            stats["runs_after_replacement"] += int(st["run"] in replaced)
+            gap = _fl(m["min_gap"])
+            if gap is not None and gap < TIE and got[0] == "ok":
+                stats["ties_skipped"] += 1
+                continue
+            bad = _vs_model(m, got, d, opts)
+            if bad:
+                return {"mismatch": True, "step": si, "run": st, "content_stored_at_that_moment": d, "problems": bad[:6],
+                        "same_cooler_object": same, "impl": _ser(got),
+                        "model": {"bias": [_fl(x) for x in m["bias"]], "scales": [_fl(x) for x in m["scales"]],
+                                  "vars": [_fl(x) for x in m["vars"]], "converged": m["converged"]}}
+            stats["compared"] += 1
+    return {"stats": stats}
+
+
+def json_key(x):
+    return json.dumps(x, sort_keys=True)
+
+
+def _walk_marking(h, ran, replaced):
+    """h.walk(), keeping track of the URIs that were run and later written again (`replaced`)"""
+    steps = h.case["steps"]
+    pos = 0
+    for si, st, k, d in h.walk():
+        for s in steps[pos:si]:
+            if "write" in s and s["write"] in ran:
+                replaced.add(s["write"])
+        pos = si
+        yield si, st, k, d
+        ran.add(st["run"])
+
+
+def _chrom_classes(labels):
+    """which bins share a chromosome, independent of how a chromosome is labelled: index of the first bin with the label"""
+    first = {}
+    out = []
+    for i, x in enumerate(labels):
+        out.append(first.setdefault(x, i))
+    return out
+
+
+def _canon_chunk(chunk, fk):
+    """a raw chunk of the pipeline as (chromosome classes of the whole bin table, pixel rows with exact integer values)"""
+    ch = chunk["bins"]["chrom"]
+    labels = [str(x) for x in (ch.tolist() if hasattr(ch, "tolist") else list(ch))]
+    pxs = chunk["pixels"]
+    vals = _int_vec(np.asarray(pxs["count"], dtype=float), fk)
+    if vals is None:
+        vals = [None] * len(pxs["count"])
+    rows = [[int(a), int(b), v] for a, b, v in zip(pxs["bin1_id"], pxs["bin2_id"], vals)]
+    return [_chrom_classes(labels), rows]
+
+
+def _hist_pipeline(case):
+    from operator import add
+    stats = {"runs": 0, "same_object_runs": 0, "runs_after_replacement": 0, "reductions": 0, "raw_chunk_runs": 0}
+    with _Hist(case) as h:
+        ran, replaced = set(), set()
+        for si, st, k, d in _walk_marking(h, ran, replaced):
+            px = d["pixels"]
+            nnz = len(px)
+            chrom = _chrom_of_bins(d["chroms"])
+            fk = int(d.get("fshift", 0))
+            cs = st["chunksize"]
+            clr, same = h.clr_for(st, d)
+            with h.mapctx(st) as mp_:
+                rec = RecMap(mp_)
+
+                def build(**kw):
+                    # keys as balance_cooler / split() derive them from what the file says now
+                    if cs is None:
+                        return parallel.split(clr, map=rec, spans=[(0, int(clr.info["nnz"]))], use_lock=False, **kw)
+                    return parallel.split(clr, map=rec, chunksize=cs, use_lock=False, **kw)
+
+                if st["what"] == "reduce":
+                    w, shift = st.get("w"), st.get("shift", 0)
+                    vec = None if w is None else np.array(w, dtype=float) * 2.0 ** (-shift)
+
+                    def go():
+                        dp = build().prepare(_B._init).pipe(_impl_filters(st["filters"]))
+                        if vec is not None:
+                            dp = dp.pipe(_B._timesouterproduct, vec)
+                        return dp.pipe(_B._marginalize).reduce(add, np.zeros(int(clr.info["nbins"])))
+                    todo = go
+                else:
+                    def todo():
+                        return list(build(include_chroms=bool(st.get("include_chroms"))).run())
+                try:
+                    res = impl(todo)
+                except ImplRaised as e:   # the modelled pipeline is total
+                    return {"mismatch": True, "impl_raised": e.cls, "message": e.msg, "where": e.where, "step": si, "run": st,
+                            "content_stored_at_that_moment": d, "same_cooler_object": same}
+            seen = [kk for c in rec.passes for kk in c]
+            stats["runs"] += 1
+            stats["same_object_runs"] += int(same)
+            stats["runs_after_replacement"] += int(st["run"] in replaced)
+            bad = {}
+            cov = drv().ask("C11.covers", n=nnz, spans=seen, lo=0, hi=nnz)
+            if len(rec.passes) != 1 or not cov["covers"]:
+                bad["keys_handed_to_map"] = rec.passes
+                bad["note_keys"] = "the run must map once over spans that cover the stored table exactly once"
+            if st["what"] == "reduce":
+                stats["reductions"] += 1
+                fs = list(st["filters"]) + ([] if st.get("w") is None else [{"f": "times", "vec": st["w"]}])
+                model = drv().ask("C11.marginal", n=len(chrom), chrom=chrom, pixels=px, filters=fs, spans=seen,
+                                  perm=list(range(len(seen))), lo=0, hi=nnz)
+                if model["covers"] and model["reduced"] != model["whole"]:
+                    raise AssertionError("L1 != L0: theorem balanceReduce_eq_whole contradicted")
+                eff = (0 if st.get("w") is None else st.get("shift", 0)) + (0 if any(f["f"] == "binarize" for f in st["filters"]) else fk)
+                if not _exact(np.asarray(res, dtype=float), model["whole"], eff):
+                    bad.update({"impl": [float(x) for x in np.asarray(res, dtype=float)], "expected_times_4^shift": model["whole"], "shift": eff})
+            else:
+                stats["raw_chunk_runs"] += 1
+                got = sorted((_canon_chunk(c, fk) for c in res), key=json_key)
+                exp = []
+                for sp in seen:
+                    mc = drv().ask("C11.chunk", chrom=chrom, pixels=px, span=sp)
+                    exp.append([_chrom_classes(mc["chrom"]), mc["pixels"]])
+                exp.sort(key=json_key)
+                if got != exp:
+                    bad.update({"impl_chunks": got, "model_chunks": exp})
+            if bad:
+                return dict({"mismatch": True, "step": si, "run": st, "content_stored_at_that_moment": d, "same_cooler_object": same}, **bad)
+    return {"stats": stats}
+
+
 CHECKS = {"partition_unit": _partition_unit, "spans_unit": _spans_unit, "pipeline": _pipeline, "pipe_reuse": _pipe_reuse,
-          "balance_schedules": _balance_schedules, "cli": _cli}
+          "balance_schedules": _balance_schedules, "cli": _cli, "hist_balance": _hist_balance, "hist_pipeline": _hist_pipeline}
 
 
 # ----------------------------------------------------------------------------------------------
@@ -826,6 +1188,154 @@ def _rand_opts(rng, n, thorough, mode=None):
 
 POOL_KINDS = ("pool.map", "pool.imap", "pool.imap_unordered")
 SEQ_KINDS = ("builtin", "lazy", "list", "reversed", "shuffle")
+
+# histories ---------------------------------------------------------------------------------------
+
+DERIVE_KINDS = ("values", "positions", "pixels", "relayout", "relayout", "resize", "resize", "fresh")
+SHARED_KINDS = ("shared.map", "shared.imap", "shared.imap_unordered")
+
+
+def _rand_values(rng, positions):
+    style = rng.choice(["small", "small", "wide", "ones"])
+    out = []
+    for i, j in positions:
+        v = 1 if style == "ones" else rng.choice([0, 1, 2, 5, 17, 100, 1000]) if style == "wide" else rng.randint(1, 9)
+        out.append([i, j, v])
+    return out
+
+
+def _rand_layout(rng, n, nch):
+    cuts = sorted(rng.sample(range(1, n), nch - 1)) if nch > 1 else []
+    return [b - a for a, b in zip([0] + cuts, cuts + [n])]
+
+
+def _hist_content(rng, maxbins, maxnnz, n=None, chroms=None):
+    """a content with at least two chromosomes (cis-only / trans-only runs say something)"""
+    if chroms is None:
+        n = n or rng.randint(4, maxbins)
+        chroms = _rand_layout(rng, n, rng.choice([2, 2, 3]) if n >= 5 else 2)
+    n = sum(chroms)
+    pos = _upper(n)
+    hi = min(maxnnz, len(pos))
+    nnz = hi if rng.random() < 0.5 else rng.randint(min(5, hi), hi)
+    return {"chroms": chroms, "pixels": _rand_values(rng, sorted(rng.sample(pos, nnz))), "fshift": 0}
+
+
+def _derive(rng, d, kind, maxbins, maxnnz):
+    """the content that REPLACES `d` at its URI"""
+    chroms, px = d["chroms"], d["pixels"]
+    n = sum(chroms)
+    if kind == "values":        # same bins, same stored positions, other counts
+        new = [[p[0], p[1], p[2] + rng.randint(1, 7)] for p in px]
+        out = {"chroms": list(chroms), "pixels": new, "fshift": 0}
+    elif kind == "positions":   # same bins, same nnz, other positions
+        out = {"chroms": list(chroms), "pixels": _rand_values(rng, sorted(rng.sample(_upper(n), len(px)))), "fshift": 0}
+    elif kind == "pixels":      # same bins, other stored pixels (any nnz)
+        out = _hist_content(rng, maxbins, maxnnz, chroms=list(chroms))
+    elif kind == "relayout":    # same number of bins, other chromosome boundaries
+        lay = list(chroms)
+        for _ in range(20):
+            lay = _rand_layout(rng, n, rng.choice([2, 2, 3]) if n >= 5 else 2)
+            if lay != list(chroms):
+                break
+        if rng.random() < 0.5:
+            out = {"chroms": lay, "pixels": [list(p) for p in px], "fshift": 0}
+        else:
+            out = _hist_content(rng, maxbins, maxnnz, chroms=lay)
+    elif kind == "resize":      # more or fewer bins
+        cand = [m for m in (n - 3, n - 2, n - 1, n + 1, n + 2, n + 3) if 3 <= m <= maxbins]
+        out = _hist_content(rng, maxbins, maxnnz, n=rng.choice(cand))
+    else:
+        out = _hist_content(rng, maxbins, maxnnz)
+    if rng.random() < 0.2:
+        out["fshift"] = rng.choice([1, 2, 3])
+    return out
+
+
+def _hist_uris(rng):
+    r = rng.random()
+    if r < 0.4:
+        return [[0, None]]                               # one file, replaced in place
+    if r < 0.6:
+        return [[0, None], [1, None]]                    # two files
+    if r < 0.8:
+        return [[0, rng.choice(["a", "resolutions/10"])]]   # one group of a multi-cooler file
+    return [[0, "resolutions/10"], [0, "resolutions/20"]]   # two groups of one file
+
+
+def _hist_chunksize(rng, nnz):
+    return rng.choice([None, 1, 2, 3, max(1, nnz // 2), max(1, nnz // 3), max(1, nnz - 1), max(1, nnz), nnz + 1, 10 ** 7])
+
+
+def _hist_map(rng, pool):
+    r = rng.random()
+    if pool and r < 0.5:
+        return rng.choice(SHARED_KINDS)
+    if r < 0.06:
+        return rng.choice(POOL_KINDS)
+    return rng.choice(SEQ_KINDS)
+
+
+def _history(rng, maxbins, maxnnz, mkrun, pool_p):
+    """write / run / replace / run ... on one URI, a second URI visited in between in some histories"""
+    uris = _hist_uris(rng)
+    pool = rng.randint(2, 3) if rng.random() < pool_p else 0
+    data, steps, at = [], [], {}
+
+    def write(u, d):
+        data.append(d)
+        at[u] = len(data) - 1
+        g = uris[u][1]
+        steps.append({"write": u, "data": at[u], "how": "group" if g is not None else rng.choice(["unlink", "truncate"])})
+
+    def run(u, **hint):
+        st = {"run": u, "clr": rng.choice(["fresh", "fresh", "same"]), "map": _hist_map(rng, pool), "nproc": rng.randint(2, 3),
+              "seed": rng.randint(0, 10 ** 6)}
+        st["chunksize"] = _hist_chunksize(rng, len(data[at[u]]["pixels"]))
+        st.update(mkrun(rng, data[at[u]], hint))
+        steps.append(st)
+
+    write(0, _hist_content(rng, maxbins, maxnnz))
+    for _ in range(rng.randint(1, 2)):
+        run(0)
+    for _round in range(rng.randint(1, 3)):
+        if len(uris) > 1 and rng.random() < 0.5:
+            if 1 not in at or rng.random() < 0.6:
+                write(1, _derive(rng, data[at.get(1, at[0])], rng.choice(DERIVE_KINDS), maxbins, maxnnz))
+            run(1)
+        kind = rng.choice(DERIVE_KINDS)
+        write(0, _derive(rng, data[at[0]], kind, maxbins, maxnnz))
+        run(0, first=True)
+        for _ in range(rng.randint(1, 2)):
+            run(0)
+    return {"uris": uris, "data": data, "steps": steps, "pool": pool}
+
+
+def _mkrun_balance(thorough):
+    def mk(rng, d, hint):
+        n = sum(d["chroms"])
+        mode = rng.choice(["cis", "trans"] if hint.get("first") else ["gw", "cis", "cis", "trans"])
+        o = _rand_opts(rng, n, thorough, mode)
+        if rng.random() < 0.5:
+            o.update({"min_nnz": 0, "min_count": 0, "mad_max": 0})
+        # the oracle is the exact-rational model: its numbers grow about 4x in length per sweep
+        wide = any(p[2] > 50 for p in d["pixels"])
+        o["max_iters"] = rng.randint(1, 5 if len(d["pixels"]) <= 20 else 4) - (1 if wide and o["max_iters"] > 1 else 0)
+        o["max_iters"] = max(1, o["max_iters"])
+        return {"opts": o}
+    return mk
+
+
+def _mkrun_pipeline(rng, d, hint):
+    if rng.random() < 0.2 and not hint.get("first"):
+        return {"what": "chunks", "include_chroms": rng.random() < 0.5}
+    fs = _rand_filters(rng)
+    if hint.get("first") and not any(f["f"] in ("zero_trans", "zero_cis") for f in fs):
+        fs.append({"f": rng.choice(["zero_trans", "zero_cis"])})
+    w, shift = _rand_weights(rng, sum(d["chroms"])) if rng.random() < 0.5 else (None, 0)
+    return {"what": "reduce", "filters": fs, "w": w, "shift": shift}
+
+
 
 # regression corpus (minimised past failures first)
 CORPUS = [
@@ -962,6 +1472,13 @@ def cases(tier, rng):
             yield "balance_schedules", {"chroms": chroms, "pixels": px, "opts": opts, "chunksize": cs, "map": kind, "nproc": 3, "seed": 1}
             yield "balance_schedules", {"chroms": chroms, "pixels": px, "opts": opts, "chunksize": cs, "map": kind, "nproc": 3, "seed": 1, "fshift": 2}
 
+    # (e) histories: the same URI written, run, replaced and run again in one process ---------------------------------
+    for _ in range(160 if thorough else 40):
+        yield "hist_pipeline", _history(rng, 9, 18, _mkrun_pipeline, 0.15)
+    mk = _mkrun_balance(thorough)
+    for _ in range(120 if thorough else 30):
+        yield "hist_balance", _history(rng, 7, 18, mk, 0.15)
+
     # (d) CLI ------------------------------------------------------------------------------------------
     for k in range(4 if thorough else 1):
         chroms, px = [3, 3], [[i, j, 1 + ((5 * i + 2 * j + k) % 9)] for (i, j) in _upper(6)]
@@ -970,15 +1487,69 @@ def cases(tier, rng):
         yield "cli", {"chroms": chroms, "pixels": px, "opts": opts, "chunksize": [4, 7, 5, 100][k], "nproc": 2 + k % 2}
 
 
+def _hist_replaced_runs(case):
+    """run steps on a URI that was run before and written again since"""
+    ran, replaced, out = set(), set(), 0
+    for st in case["steps"]:
+        if "write" in st:
+            if st["write"] in ran:
+                replaced.add(st["write"])
+        else:
+            out += int(st["run"] in replaced)
+            ran.add(st["run"])
+    return out
+
+
+def _hist_transitions(case):
+    """how each replacement differs from the content it replaces"""
+    at = {}
+    for st in case["steps"]:
+        if "write" not in st:
+            continue
+        new = case["data"][st["data"]]
+        old = at.get(st["write"])
+        at[st["write"]] = new
+        if old is None:
+            continue
+        if sum(old["chroms"]) != sum(new["chroms"]):
+            yield "other number of bins"
+        elif old["chroms"] != new["chroms"]:
+            yield "same number of bins, other chromosome layout"
+        elif len(old["pixels"]) != len(new["pixels"]):
+            yield "same bins, other nnz"
+        else:
+            yield "same bins and nnz, other pixels"
+        if bool(old.get("fshift")) != bool(new.get("fshift")):
+            yield "other dtype of the count column"
+
+
 def nontrivial(name, case):
     if name == "partition_unit":
         return case["hi"] - case["lo"] > case["step"]
+    if name.startswith("hist_"):
+        return _hist_replaced_runs(case) > 0
     cs = case.get("chunksize")
     return cs is not None and len(case["pixels"]) > cs
 
 
 def distribution(name, case):
     if name == "partition_unit":
+        return
+    if name.startswith("hist_"):
+        for t in _hist_transitions(case):
+            yield f"{name}.replacement: {t}"
+        files = {f for f, _g in case["uris"]}
+        yield f"{name}.uris={len(case['uris'])} in {len(files)} file(s), {'groups' if case['uris'][0][1] else 'root'}"
+        if case.get("pool"):
+            yield f"{name}.one pool for the whole history"
+        for st in case["steps"]:
+            if "run" in st:
+                yield f"{name}.run map={st['map']}"
+                if "opts" in st:
+                    o = st["opts"]
+                    yield f"{name}.run mode={'cis' if o['cis_only'] else 'trans' if o['trans_only'] else 'genome-wide'}"
+                if "what" in st:
+                    yield f"{name}.run what={st['what']}"
         return
     nnz, cs = len(case["pixels"]), case.get("chunksize")
     if cs is None:
@@ -1004,6 +1575,49 @@ def distribution(name, case):
         yield f"{name}.keys={case['keys']}"
 
 
+def _hist_valid(steps):
+    have = set()
+    for st in steps:
+        if "write" in st:
+            have.add(st["write"])
+        elif st["run"] not in have:
+            return False
+    return any("run" in st for st in steps)
+
+
+def _hist_shrink(case):
+    steps = case["steps"]
+    for i in range(len(steps)):                     # fewer steps
+        c = steps[:i] + steps[i + 1:]
+        if _hist_valid(c):
+            yield dict(case, steps=c)
+    if case.get("pool") and not any(st.get("map", "").startswith("shared.") for st in steps):
+        yield dict(case, pool=0)
+    for i, st in enumerate(steps):                  # simpler runs
+        if "run" not in st:
+            continue
+        simple = {"map": "builtin", "clr": "fresh", "chunksize": None}
+        for k, v in simple.items():
+            if st.get(k) != v:
+                yield dict(case, steps=steps[:i] + [dict(st, **{k: v})] + steps[i + 1:])
+        if st.get("w") is not None:
+            yield dict(case, steps=steps[:i] + [dict(st, w=None, shift=0)] + steps[i + 1:])
+        for j in range(len(st.get("filters", []))):
+            fs = st["filters"]
+            yield dict(case, steps=steps[:i] + [dict(st, filters=fs[:j] + fs[j + 1:])] + steps[i + 1:])
+        if "opts" in st:
+            o = st["opts"]
+            for k, v in {"ignore_diags": 0, "min_nnz": 0, "min_count": 0, "mad_max": 0, "blacklist": None, "max_iters": 1}.items():
+                if o.get(k) != v:
+                    yield dict(case, steps=steps[:i] + [dict(st, opts=dict(o, **{k: v}))] + steps[i + 1:])
+    for k, d in enumerate(case["data"]):            # smaller contents
+        if d.get("fshift"):
+            yield dict(case, data=case["data"][:k] + [dict(d, fshift=0)] + case["data"][k + 1:])
+        px = d["pixels"]
+        for i in range(len(px) - 1, -1, -1):
+            yield dict(case, data=case["data"][:k] + [dict(d, pixels=px[:i] + px[i + 1:])] + case["data"][k + 1:])
+
+
 def shrink(name, case):
     if name == "partition_unit":
         for k in ("lo", "hi", "step"):
@@ -1011,6 +1625,9 @@ def shrink(name, case):
                 c = dict(case, **{k: case[k] - 1})
                 if c["lo"] <= c["hi"]:
                     yield c
+        return
+    if name.startswith("hist_"):
+        yield from _hist_shrink(case)
         return
     if case.get("map", "builtin") != "builtin" and name != "cli":
         yield dict(case, map="builtin")
